@@ -14,7 +14,7 @@ EXPLANATION = (
     "node, and the unbound path stores the node before accepting.  R19.3: the matcher enumerates fields with "
     "ast.iter_fields filtering only expr_context, and has a rejecting exit for class, child count, list length, "
     "scalar value and recursive mismatch.  R19.4: in the statement-replacement loop an overlapping match can reach "
-    "add_change only through the expression-mode edge, and last_end is updated before every add_change.  R19.5: every accepting path of the default wildcard (or the matcher "
+    "add_change only through the expression-mode edge, last_end is updated before every add_change, and only in an iteration that reaches add_change (a skipped match does not move the watermark).  R19.5: every accepting path of the default wildcard (or the matcher "
     "before it) crosses an isinstance(node, ast.*) test, so a wildcard is never bound to an empty optional field.  R19.6: no type filter in front of the statement-list scan "
     "excludes a constructor that owns a statement suite in the interpreter's grammar (ExceptHandler, match_case included).  "
     "Completeness of reported matches and meaning-preserving substitution are not decided."
